@@ -185,8 +185,46 @@ func runAllControls() (n int, err error) {
 		}
 	}
 	expect("atomic-consistency mixed access detected", atomicSeen && plainSeen, true)
-	if n < 12 && err == nil {
-		err = fmt.Errorf("only %d control verdicts evaluated (expected >= 12)", n)
+	// 7. linear forms + intervals: allocated <= checked
+	chk := fn("check").Object().(*types.Func)
+	alc := fn("alloc").Object().(*types.Func)
+	for _, s := range []struct {
+		f    string
+		want bool
+	}{{"goodBound", true}, {"badBound", false}} {
+		f := fn(s.f)
+		cc := CallsTo(f, chk)[0]
+		ac := CallsTo(f, alc)[0]
+		eng := &linEngine{p: p, fn: f, at: ac.Block(), slack: map[ssa.Value]bool{}, busy: map[ssa.Value]bool{}}
+		d := eng.lin(CallArgs(cc)[0]).add(eng.lin(CallArgs(ac)[0]), -1)
+		expect("linear-bound "+s.f, eng.lower(d) >= 0, s.want)
+	}
+	// 8. narrow arithmetic: a positive example for the rule whose expected count on the tree is zero
+	for _, s := range []struct {
+		f    string
+		want bool // some narrow operation may leave its type
+	}{{"narrowWrap", true}, {"narrowOK", false}} {
+		f := fn(s.f)
+		wraps := false
+		Instrs(f, func(i ssa.Instruction) {
+			bo, ok := i.(*ssa.BinOp)
+			if !ok {
+				return
+			}
+			b, isB := bo.Type().Underlying().(*types.Basic)
+			if !isB || b.Kind() != types.Uint8 {
+				return
+			}
+			eng := &linEngine{p: p, fn: f, at: bo.Block(), slack: map[ssa.Value]bool{}, busy: map[ssa.Value]bool{}}
+			a, bb := eng.interval(bo.X), eng.interval(bo.Y)
+			if !(ival{satAdd(a.lo, bb.lo), satAdd(a.hi, bb.hi)}).within(typeIval(bo.Type())) {
+				wraps = true
+			}
+		})
+		expect("narrow-arithmetic "+s.f, wraps, s.want)
+	}
+	if n < 16 && err == nil {
+		err = fmt.Errorf("only %d control verdicts evaluated (expected >= 16)", n)
 	}
 	return n, err
 }
